@@ -212,11 +212,12 @@ Definition l2_agg_group_desc (q : query) (aggs : list aggcol) (parts : list (lis
       end
     end.
 
-(* the whole answer for both orders. A descending plain selection is modelled as the ascending ordered merge reversed
-   (the row order is a total order, so the descending merge of descending streams is that list). *)
+(* the whole answer for both orders. A descending plain selection: every reader hands out its rows newest first and the
+   descending ordered merge Model.merge_kd combines them. *)
 Definition l2_group_rows (q : query) (pl : plan) (k : list Z) : list arow :=
   match q_sel q with
-  | SelPlain cols => let r := merge_k (map (plain_group q cols) (pl_parts pl k)) in if q_desc q then rev r else r
+  | SelPlain cols => if q_desc q then merge_kd (map (fun p => rev (plain_group q cols p)) (pl_parts pl k))
+                     else merge_k (map (plain_group q cols) (pl_parts pl k))
   | SelAgg aggs => if q_desc q then l2_agg_group_desc q aggs (pl_parts pl k) (pl_sizes pl k) (pl_sizes2 pl k)
                    else l2_agg_group_asc q aggs (pl_parts pl k) (pl_sizes pl k) (pl_sizes2 pl k)
   end.
